@@ -41,7 +41,7 @@ ASSUMPTIONS = ["the generated code is observed through the runtime's own structu
 RULE = ("schemas in which two messages reuse a count field with differing definitions: solved hash collisions (the pair {1,24676}/"
         "{2,7} and pairs solved afresh from d = L(a xor c) xor b), same members in another order, same members with other "
         "required flags, differing nested definitions, plus controls (identical definitions, hash-distinct definitions), "
-        "random schemas with reused groups and the stock schemas; one case per message that has a group = its trait tree + "
+        "random schemas with reused groups, a FIXT-mode pair (f8c -x) whose application redefines a transport component name, and the stock schemas; one case per message that has a group = its trait tree + "
         "8 probes (full, minimal, every group once, random subsets, mandatory field removed). non-trivial = the message has a "
         "group and at least 3 probes; distinct = distinct case lines")
 
@@ -59,6 +59,9 @@ def schemas(rng, tier):
         out.append(("gen", L.gen_c14(rng, False), "scenario"))
     for _ in range(6 if tier == "thorough" else 1):
         out.append(("gen", L.gen_random(rng), "random"))
+    # FIXT mode (f8c -x): the application redefines a transport component name (HopGrp) with other members
+    for _ in range(4 if tier == "thorough" else 1):
+        out.append(("genx", L.gen_fixt(rng), "fixt"))
     stock = ["schema/FIX42UTEST.xml"] + (["schema/FIX44.xml", "schema/FIX43.xml"] if tier == "thorough" else [])
     for rel in stock:
         out.append(("repo:" + rel, L.read_xml(os.path.join(B.REPO, rel)), "stock"))
